@@ -30,6 +30,8 @@ ASSUMPTIONS = [
     "declared range cannot be installed offline and are not claimed",
     "names reached through instances (method calls on arrays etc.) are not resolved, except for a curated list of methods known to "
     "have been removed (ndarray.ptp/itemset/newbyteorder/tostring, dict.iteritems ...), flagged by name",
+    "keyword arguments of calls to resolved third-party functions are checked against the function's introspectable signature; functions "
+    "without one (C builtins, ufuncs) or taking **kwargs are not decided",
     "a name rebound locally (parameter/assignment) shadows the module binding and is skipped",
 ]
 
@@ -283,7 +285,30 @@ def resolve(ref):
         used = j + 1
     r = (True, "", ".".join(parts[:used]))
     _RESOLVE_CACHE[ref] = r
+    if used == len(parts):
+        _RESOLVE_OBJ[ref] = obj
     return r
+
+
+_RESOLVE_OBJ = {}
+
+
+def _rejected_keywords(ref, keywords):
+    """Keyword names the resolved callable does not accept, by its introspectable signature (None if it cannot be known:
+    no signature, or it takes **kwargs)."""
+    import inspect
+    obj = _RESOLVE_OBJ.get(ref)
+    if obj is None or not callable(obj) or isinstance(obj, type):
+        return None
+    try:
+        sig = inspect.signature(obj)
+    except (TypeError, ValueError):
+        return None
+    params = sig.parameters
+    if any(p_.kind == p_.VAR_KEYWORD for p_ in params.values()):
+        return None
+    ok = {n_ for n_, p_ in params.items() if p_.kind in (p_.POSITIONAL_OR_KEYWORD, p_.KEYWORD_ONLY)}
+    return [k for k in keywords if k not in ok]
 
 
 def _static(case):
@@ -336,6 +361,32 @@ def _static(case):
                           "what": "%s:%d calls .%s() -- %s no longer exists" % (case["file"], node.lineno, node.func.attr,
                                                                                REMOVED_INSTANCE_METHODS[node.func.attr]),
                           "tags": {"file": case["file"], "ref": node.func.attr, "group": "method:" + node.func.attr}, "size": node.lineno})
+    # keyword arguments of calls to third-party / standard-library functions: the installed function must accept them
+    shadowed = set()
+    for node in ast.walk(tree):
+        if isinstance(node, (ast.FunctionDef, ast.AsyncFunctionDef, ast.Lambda)):
+            shadowed |= v._locals_of(node) & set(v.bind)
+    for node in ast.walk(tree):
+        if not (isinstance(node, ast.Call) and node.keywords and isinstance(node.func, ast.Attribute)):
+            continue
+        chain, cur = [], node.func
+        while isinstance(cur, ast.Attribute):
+            chain.append(cur.attr)
+            cur = cur.value
+        if not (isinstance(cur, ast.Name) and cur.id in v.bind and cur.id not in shadowed):
+            continue
+        ref = v.bind[cur.id] + "." + ".".join(reversed(chain))
+        kws = [k.arg for k in node.keywords if k.arg is not None]
+        if not kws or not resolve(ref)[0]:
+            continue
+        bad = _rejected_keywords(ref, kws)
+        if bad:
+            fails.append({"check": "removed-keyword",
+                          "what": "%s:%d calls %s(..., %s=...): the installed %s does not accept that keyword"
+                                  % (case["file"], node.lineno, ref, bad[0], ref),
+                          "tags": {"file": case["file"], "ref": ref, "group": "kw:" + ref + ":" + bad[0]}, "size": node.lineno})
+        elif bad is not None:
+            nontrivial.add(ref + "(kw)")
     for gid, branches in groups.items():
         if any(all(ok for _, _, ok, _ in sites) for sites in branches.values()):
             guarded_unresolved += sum(1 for sites in branches.values() for s in sites if not s[2])
